@@ -254,7 +254,7 @@ func (w *pw) add(pod string, ctx context.Context) {
 			}
 		case !inCloud && w.unassigned[a]:
 			if w.oracle["C01"] || w.oracle["C06"] {
-				w.x.Failf("C01/ack-after-unassign-or-delete", "ADD(%s) acknowledged with %s which the daemon itself had unassigned / whose interface it had deleted; %s", pod, a, w.hist())
+				w.x.Failf("ack-after-unassign-or-delete", "ADD(%s) acknowledged with %s which the daemon itself had unassigned / whose interface it had deleted; %s", pod, a, w.hist())
 			}
 		case !inCloud && wasRemoved:
 			// removed behind the daemon's back: a violation only if a sync that did not list it had returned before this ADD started
@@ -304,7 +304,7 @@ func (w *pw) run(op pwOp) {
 		ctx, cancel := vrt.CtxWithTimeout(w.ctx, 2*time.Minute)
 		w.add(op.Pod, ctx)
 		cancel()
-	case "addc":
+	case "addc", "addce":
 		ctx, cancel := vrt.CtxWithTimeout(w.cctx[op.Pod], 2*time.Minute)
 		w.add(op.Pod, ctx)
 		cancel()
@@ -567,8 +567,14 @@ func pwBody(sc *pwScenario, oracle map[string]bool) func(x *vrt.Exec) {
 		}
 		for _, th := range sc.Threads {
 			for _, op := range th {
-				if op.Kind == "addc" {
+				if op.Kind == "addc" || op.Kind == "addce" {
 					w.cctx[op.Pod], w.ccancel[op.Pod] = context.WithCancel(w.ctx)
+				}
+				if op.Kind == "addce" {
+					// the caller goes away at ANY scheduling point: an explorer-delivered environment event
+					pod := op.Pod
+					cancel := w.ccancel[pod]
+					vrt.EnvEvent("cancel:"+pod, func() { w.ev("cancel(%s)", pod); cancel() })
 				}
 			}
 		}
